@@ -23,6 +23,8 @@ import (
 //   * lazy-cache stability: all (read, property) pairs are read in a seed-permuted order, then a
 //     second time in another order, then on a freshly computed copy of the documents in canonical
 //     order: the three observations must agree;
+//   * copy consistency: ElementStyle.Copy() taken on a fresh computation before any read computes
+//     the same values as the original;
 //   * no cross-talk: a property that is neither declared nor dependent on a declared one has the
 //     same value as in the "twin" document where the declarations under test are removed.
 // ---------------------------------------------------------------------------------------------
@@ -223,6 +225,43 @@ func observeAll(docs []docSpec, reads []readSpec, perm int64, res *fw.Result, do
 		}
 	}
 	res.Count("order_checks", int64(nR*nP))
+
+	// copy consistency: on a third fresh computation, where nothing has been read yet, every
+	// observed style is copied (ElementStyle.Copy, used by the flex layout for flex items) and all
+	// properties are read on the copies only, in a seed-permuted order: a copy must compute what
+	// its original computes
+	ws3, err := buildWorlds(docs)
+	if err != nil {
+		*res = fw.Result{Verdict: fw.Inconclusive, Msg: err.Error()}
+		return nil, false
+	}
+	copies := make([]pr.ElementStyle, nR)
+	for ri, r := range reads {
+		st, err := resolveRead(ws3, r, nil)
+		if err != nil {
+			res.Fail("no-style", err.Error()+docsText())
+			return nil, false
+		}
+		cp := st.Copy()
+		if cp == nil || reflect.ValueOf(cp).IsNil() {
+			res.Fail("copy-nil", fmt.Sprintf("Copy() of the style of %s is nil%s", describe(r), docsText()))
+			return nil, false
+		}
+		copies[ri] = cp
+	}
+	for _, k := range rng.Perm(nR * nP) {
+		ri, pi := k/nP, k%nP
+		v := copies[ri].Get(props[pi].Key())
+		if v == nil {
+			res.Fail("copy-differs", fmt.Sprintf("Get(%s) returned nil on a Copy() of the style of %s%s", props[pi], describe(reads[ri]), docsText()))
+			return nil, false
+		}
+		if c := canonProp(props[pi].String(), v, reads[ri], nil); c != vals[ri][pi] {
+			res.Fail("copy-differs", fmt.Sprintf("Get(%s) on a Copy() of the style of %s (taken before anything was read) gives %s, the original gives %s%s", props[pi], describe(reads[ri]), c, vals[ri][pi], docsText()))
+			return nil, false
+		}
+	}
+	res.Count("copy_checks", int64(nR*nP))
 	return vals, true
 }
 
